@@ -29,7 +29,7 @@
 
 static Boolean DoFilter;
 static int     FilterCnt;
-static Byte    FilterBytes[100];
+static Byte    FilterBytes[256]; /* CPU ids are bytes and entered once each */
 
 Word        FileID  = 0x1489;   /* Dateiheader Eingabedateien */
 char const* OutName = "STDOUT"; /* Pseudoname Output */
@@ -371,6 +371,9 @@ CMDResult CMD_FilterList(Boolean Negate, char const* Arg) {
         }
 
         else if ((!Negate) && (Search >= FilterCnt)) {
+            if (FilterCnt >= (int)(sizeof(FilterBytes) / sizeof(*FilterBytes))) {
+                return CMDErr;
+            }
             FilterBytes[FilterCnt++] = FTemp;
         }
 
